@@ -68,18 +68,18 @@ Theorem C15_error_not_eof_emit_chunks : forall lo dstream e,
 Proof. exact error_not_eof_emit_chunks_stmt. Qed.
 Print Assumptions C15_error_not_eof_emit_chunks.
 
-(* when a failing source does give a clean EOF, the failure is not the cause: the complete input gives
-   the same events and the same clean EOF *)
+(* any callback mode: when a failing source does give a clean EOF, the failure is not the cause - the
+   complete input gives the same events and the same clean EOF (a defect of the lexer on malformed
+   input, see the counterexamples, not an effect of the I/O error) *)
 Theorem C15_eof_not_caused_by_failure : forall lo dstream e,
   e <> EEOF -> e <> EUnexpectedEOF -> e <> ETruncated -> e <> EInvalidChunkCrc ->
-  lo_cb lo = CbNone ->
   (forall c a, snd (dstream c a (Some e)) = Some e) ->
   (forall c a t, exists u, fst (dstream c (a ++ t) None) = fst (dstream c a (Some e)) ++ u) ->
   forall fuel fuel' p rest sk evsF sF evsC finC sC,
     lex_all lo dstream fuel {| r_buf := p; r_end := Some e; r_seek := sk |} = Ok (evsF, EEOF, sF) ->
     lex_all lo dstream fuel' {| r_buf := p ++ rest; r_end := None; r_seek := sk |} = Ok (evsC, finC, sC) ->
     finC = EEOF /\ evsC = evsF.
-Proof. exact eof_not_caused_by_failure_stmt. Qed.
+Proof. exact eof_not_caused_by_failure_gen_stmt. Qed.
 Print Assumptions C15_eof_not_caused_by_failure.
 
 (* ---------- 5. the events before the failure are a prefix of the true sequence ---------- *)
